@@ -66,6 +66,8 @@ def run(ctx):
         "option combinations without -yaml are observed only once the C13 repair (IsEnum outside the YAML block) is in the tree",
     ]
     ctx.obligations_or_violation()
+    if not gl.build_judge(ctx):
+        return
     quick = ctx.tier == "quick"
     terms, jsons, err = gl.run_batches(ctx, "c05", 26, 8, 75)
     if err:
@@ -78,17 +80,7 @@ def run(ctx):
         ctx.report({"unchecked": "in-kernel evaluation of the correspondence", "detail": err},
                    {"kind": "coq_eval"}, failing_input=False)
         return
-    for i, code in bad:
-        j = jsons[i]
-        if ctx.nreplay < 1 and not gl.known(ctx, features(j)):
-            j = gl.minimise(ctx, "c05", CASE_TYPE, JUDGE, j, code)
-        rep = {"case": gl.slim(j, maxlist=12),
-               "definition_file": gl.single_enum_file(j) if "/minimised" not in j["kind"] else j["file"],
-               "differences": explain(j),
-               "verdict": {1: "observed behaviour violates the C05 specification (failing input)",
-                           2: "observed behaviour satisfies the specification but differs from the Coq model"}[code],
-               "replay_cmd": "./check C05 --replay <this file>"}
-        ctx.report(rep, features(j), failing_input=(code == 1))
+    gl.report_all(ctx, "c05", CASE_TYPE, JUDGE, jsons, bad, features, explain, widen_n=40, shard=6, maxlist=12)
     docs = [d for j in jsons for d in (j["obs"].get("docs") or [])]
     skipped = [j for j in jsons if j["outcome"] == "compile_error" and not j["file"]["opts"]["yaml"]]
     ctx.cov.update({
